@@ -20,20 +20,7 @@ def gen_case(rng):
     c = c03.gen_case(rng, drop_rate=1.0)
     S, D = c["schema"], c["frame"]
     S["dropInvalid"] = True
-    # C11 quantifies over frames with a unique index
-    lv = D["index"][0]
-    seen, vals = set(), []
-    for v in lv["vals"]:
-        k = json.dumps(v)
-        while k in seen:
-            if lv["dtype"] == "int64":
-                v = A.vint(A.to_py(v) + 31)
-            else:
-                v = A.vstr(A.to_py(v) + "'")       # labels with quotes are part of the brief
-            k = json.dumps(v)
-        seen.add(k)
-        vals.append(v)
-    D["index"] = [dict(lv, vals=vals)]
+    c03.unique_labels(D)     # C11 quantifies over frames with a unique index
     # bias towards row-level problems only: correct physical dtypes unless a coercion is requested
     return c
 
@@ -205,7 +192,7 @@ def run_polars(rep, rng, n):
     ans = run_driver("C11", [{"schema": c["schema"], "frame": c["frame"]} for c in cases])
     for c, a in zip(cases, ans):
         S, D = c["schema"], c["frame"]
-        if "error" in a or not a["wf"] or a["nonRowErrors"]:
+        if "error" in a or not a["wf"] or a["nonRowErrors"] or not P.well_typed(c):
             continue
         try:
             df = PA.frame_of(D).with_row_index("__pos")
